@@ -124,3 +124,76 @@ Proof. intros H Hin. pose proof (md_lookup_fine d f k H) as F. rewrite Forall_fo
 Example md_fine_example :
   md_fine (mkMD [([2560%N], [20007%N], 2004%N, 0%N); ([2560%N; 6275%N], [19976%N; 20007%N], 5%N, 0%N)] [([2560%N], [20013%N], 7%N, 3%N)] []).
 Proof. split; repeat constructor; try discriminate; reflexivity. Qed.
+
+(* ---- the same facts for the dictionary whose system layer is a trie file (mdf_ops: capi cases) ---- *)
+Lemma insert_by_key_in x : forall l y, In y (insert_by_key x l) -> y = x \/ In y l.
+Proof.
+  induction l as [|z l IH]; intros y H; cbn [insert_by_key] in H; [destruct H as [<-|[]]; now left|].
+  destruct x as [[[kx tx] fx] mx]. destruct z as [[[kz tz] fz] mz].
+  destruct (lex_compare kx kz).
+  - destruct H as [<-|H]; [now left | now right].
+  - destruct H as [<-|H]; [now left | now right].
+  - destruct H as [<-|H]; [right; now left|]. destruct (IH y H) as [->|Hy]; [now left | right; now right].
+Qed.
+
+Lemma sort_by_key_in : forall l y, In y (sort_by_key l) -> In y l.
+Proof.
+  induction l as [|x l IH]; intros y H; cbn [sort_by_key fold_right] in H; [contradiction|].
+  apply insert_by_key_in in H as [->|H]; [now left | right; now apply IH].
+Qed.
+
+Lemma tbf_lookup_in entries k p : In p (tbf_lookup entries k) ->
+  exists k' tm, In (k', fst p, snd p, tm) entries /\ syls_match k' k = true.
+Proof.
+  unfold tbf_lookup. intros H. apply in_map_iff in H as ([[[k' t] f] tm] & <- & Hin).
+  apply sort_by_key_in in Hin. apply filter_In in Hin as (Hin & Hm). exists k', tm. cbn [fst snd]. split; assumption.
+Qed.
+
+Lemma syls_match_nil k' : syls_match k' [] = true -> k' = [].
+Proof. destruct k'; cbn; [reflexivity | discriminate]. Qed.
+
+Lemma tbf_lookup_nil entries : Forall (fun e => entry_key e <> []) entries -> tbf_lookup entries [] = [].
+Proof.
+  intros H. destruct (tbf_lookup entries []) as [|p l] eqn:E; [reflexivity|]. exfalso.
+  assert (Hin : In p (tbf_lookup entries [])) by (rewrite E; now left).
+  apply tbf_lookup_in in Hin as (k' & tm & Hin & Hm). apply syls_match_nil in Hm. subst k'.
+  rewrite Forall_forall in H. exact (H _ Hin eq_refl).
+Qed.
+
+Lemma mdf_ok_lookup d f : md_ok d -> do_lookup mdf_ops d f [] = [].
+Proof.
+  intros [Hs Hu]. cbn [do_lookup mdf_ops]. unfold mdf_lookup. destruct f.
+  - rewrite (tb_lookup_nil _ _ Hu), (tbf_lookup_nil _ Hs). reflexivity.
+  - unfold md_lookup. rewrite (tb_lookup_nil _ _ Hu), (tb_lookup_nil _ _ Hs). reflexivity.
+Qed.
+
+Lemma tbf_lookup_fine entries k : Forall entry_fine entries -> Forall phrase_fine (tbf_lookup entries k).
+Proof.
+  intros H. apply Forall_forall. intros p Hp. apply tbf_lookup_in in Hp as (k' & tm & Hin & _).
+  rewrite Forall_forall in H. specialize (H _ Hin). cbn [entry_fine] in H. destruct H as (_ & Ht & Hf). split; assumption.
+Qed.
+
+Lemma mdf_lookup_fine d f k : md_fine d -> Forall phrase_fine (do_lookup mdf_ops d f k).
+Proof.
+  intros Hd. cbn [do_lookup mdf_ops]. unfold mdf_lookup. destruct f; [|exact (md_lookup_fine d false k Hd)].
+  destruct Hd as [Hs Hu].
+  pose proof (tb_lookup_fine (md_user d) (md_grave d) k Hu) as HU. pose proof (tbf_lookup_fine (md_sys d) k Hs) as HS.
+  assert (HA : Forall phrase_fine (tbf_lookup (md_sys d) k ++ tb_lookup (md_user d) (md_grave d) k)) by (apply Forall_app; now split).
+  assert (H0 : Forall phrase_fine (@nil phrase)) by constructor.
+  revert H0. generalize (@nil phrase). induction HA as [|p l Hp Hl IH]; intros acc H0; cbn [fold_left]; [exact H0|].
+  apply IH. now apply merge_phrase_fine.
+Qed.
+
+Lemma mdf_fine_text d f k p : md_fine d -> In p (do_lookup mdf_ops d f k) -> fst p <> [].
+Proof. intros H Hin. pose proof (mdf_lookup_fine d f k H) as F. rewrite Forall_forall in F. now destruct (F _ Hin). Qed.
+Lemma mdf_fine_freq d f k p : md_fine d -> In p (do_lookup mdf_ops d f k) -> (snd p < 4000000000)%N.
+Proof. intros H Hin. pose proof (mdf_lookup_fine d f k H) as F. rewrite Forall_forall in F. now destruct (F _ Hin). Qed.
+
+(* add / update / remove are the same functions for both instances *)
+Lemma mdf_fine_add d k t f : md_fine d -> length t <= length k -> (f <= 100)%N -> md_fine (fst (do_add mdf_ops d k t f)).
+Proof. exact (md_fine_add d k t f). Qed.
+Lemma mdf_fine_update d k t f u tm : md_fine d -> length t = length k -> k <> [] -> (u <= MAX_USER_FREQ)%N ->
+  md_fine (do_update mdf_ops d k t f u tm).
+Proof. exact (md_fine_update d k t f u tm). Qed.
+Lemma mdf_fine_remove d k t : md_fine d -> md_fine (do_remove mdf_ops d k t).
+Proof. exact (md_fine_remove d k t). Qed.
